@@ -576,9 +576,7 @@ class CallMixin:
 
     def b_set(self, a, k):
         items = self.dedupe(self.iterate(a[0])) if a else []
-        if any(isinstance(x, (Sym, Ref)) or (isinstance(x, tuple) and any(isinstance(u, (Sym, Ref)) for u in x)) for x in items):
-            return self.p.alloc(HList(items))
-        return frozenset(items)
+        return self.p.alloc(HList(items))      # duplicate-free heap list: add/pop/remove work
 
     b_frozenset = b_set
 
